@@ -167,3 +167,28 @@ func vfC12_TimeoutRace() {
 	}
 	vfReach("end")
 }
+
+// vfC12_EvictRace: a datagram from the client arrives at the very moment its session's NAT timeout
+// fires (the clock jumps past the deadline and the datagram is sent before anybody has reacted;
+// every interleaving of the eviction with the receive loop within the preemption bound).  Nothing
+// panics, the datagram is either relayed by the old session or starts a new one or is dropped,
+// and after another idle period only the listener remains.
+//   cases: preempt
+func vfC12_EvictRace() {
+	w := vfNewNATWorld(vfNatTimeout)
+	client := vfNetSocket()
+	buf := make([]byte, 64)
+	vfNetSend(client, w.port, []byte{9, 9, 9, 9})
+	_, _, ok := vfNetRecv(w.target, buf)
+	vfAssert(ok, "first datagram relayed")
+	vfSchedule(vfCase("preempt"))
+	vfClockAdd(vfNatTimeout + time.Millisecond)
+	vfNetSend(client, w.port, []byte{7, 7, 7, 7})
+	vfQuiesce()
+	vfAdvance(vfNatTimeout + time.Millisecond)
+	vfAssert(w.tableLen() == 0 && vfNetOpen() == 1 && vfLiveGoroutines() == 1, "after the idle period only the listener remains")
+	vfAssert(w.relay.Stop() == nil, "stop")
+	vfQuiesce()
+	vfAssert(vfNetOpen() == 0 && vfLiveGoroutines() == 0, "stop releases everything")
+	vfReach("end")
+}
